@@ -1238,6 +1238,7 @@ class Manifest:
 
         Raises experiment.error.FlowIRManifestSyntaxException
         """
+        linked = []
         for target in self._manifest:
             source = self._manifest[target]
             if os.path.isabs(target):
@@ -1254,6 +1255,17 @@ class Manifest:
             # VV: FIXME experiment.data.DataReference defines these but that file also imports "experiment.conf"
             if method not in ['copy', 'link']:
                 raise experiment.model.errors.FlowIRManifestSourceInvalidReferenceMethod(target, source)
+
+            if method == 'link':
+                linked.append(target)
+
+        # VV: A target that is a link points outside the instance directory, no other target may be populated via it
+        for link in linked:
+            below = os.path.join(os.path.normpath(link), '')
+            for target in self._manifest:
+                if target != link and os.path.join(os.path.normpath(target), '').startswith(below):
+                    raise experiment.model.errors.FlowIRManifestSyntaxException(
+                        f'Manifest target "{target}" is invalid because it is inside "{link}" which is a link')
 
     def update(self, other: Union[DictManifest, "Manifest"]):
         """Updates the current manifest with another one
